@@ -368,6 +368,23 @@ func c17(c *Ctx) {
 					}
 					// end is a phi of (start+20) and length, selected by end > length
 					okEnd := false
+					var step int64
+					// end = min(start+k, length) with the builtin
+					if mc, ok := sl.High.(*ssa.Call); ok && isCall(mc, "builtin min") && len(mc.Call.Args) == 2 {
+						has20, hasLen := false, false
+						for _, e := range mc.Call.Args {
+							if b := asBinOp(e, token.ADD); b != nil && b.X == sl.Low {
+								if n, isC := constInt(b.Y); isC && n <= 20 && n >= 1 {
+									has20 = true
+									step = n
+								}
+							}
+							if strings.Contains(pathOf(e), "length") || strings.Contains(pathOf(e), "builtin len") {
+								hasLen = true
+							}
+						}
+						okEnd = has20 && hasLen
+					}
 					if ph, ok := sl.High.(*ssa.Phi); ok {
 						has20, hasLen := false, false
 						for _, e := range ph.Edges {
@@ -390,9 +407,15 @@ func c17(c *Ctx) {
 							if e == sl.High {
 								okAdv = true
 							}
+							// start += k with the same k that bounds the batch (end = min(start+k, length))
+							if b := asBinOp(e, token.ADD); b != nil && b.X == ssa.Value(ph) && step > 0 {
+								if n, isC := constInt(b.Y); isC && n == step {
+									okAdv = true
+								}
+							}
 						}
 					}
-					r.Check("cloudwatch:advances", okAdv, sl.Pos(), "start = end after each call (every datum is sent once)")
+					r.Check("cloudwatch:advances", okAdv, sl.Pos(), "start = end (or start += batch size) after each call (every datum is sent once)")
 				}
 			}
 		}
@@ -403,7 +426,7 @@ func c17(c *Ctx) {
 		}
 		c.SawFunc(FuncName(pm))
 		// the closure writeLine: the write of the line into buf is preceded on every path by the size test whose true edge swaps the buffer
-		for _, g := range WithAnon(pm)[1:] {
+		for _, g := range pkgFuncs(w, "pkg/backends/statsdaemon") {
 			var test *ssa.If
 			eachInstr(g, func(in ssa.Instruction) {
 				if ifi, ok := in.(*ssa.If); ok {
@@ -496,7 +519,7 @@ func c17(c *Ctx) {
 		}
 		// tags introducer
 		okTags := false
-		for _, g := range WithAnon(pm)[1:] {
+		for _, g := range pkgFuncs(w, "pkg/backends/statsdaemon") {
 			eachInstr(g, func(in ssa.Instruction) {
 				if b, ok := in.(*ssa.BinOp); ok && b.Op == token.ADD {
 					if s, isS := constString(b.Y); isS && s == "|#%s\n" {
